@@ -31,6 +31,7 @@ type Config struct {
 	Seed            int
 	Paranoid        bool
 	OneShot         bool
+	Stubs           map[string]string
 	FallbackMs      int
 }
 
